@@ -3,6 +3,7 @@ import InjModel.Model.Alloc
 import InjModel.Generated.Layout
 import InjModel.Model.Panic
 import Driver.Util
+import Driver.X86
 import Driver.Arm
 /-!
   `hist` lines: one install/drop history run through the public API on x86-64.
@@ -144,9 +145,9 @@ def dropOrder : DropOrder :=
 
 /-- follow the implementation's bytes: entry slot → trampoline → destination -/
 def followImpl (func : Nat) (slot : List Nat) (jit : Nat) (tr : List Nat) : Option Nat :=
-  match X86.follow func slot 0 with
+  match followWide func slot 0 with
   | some (d1, _) =>
-    if d1 == jit then (X86.follow jit tr 0).map (·.1) else some d1
+    if d1 == jit then (followWide jit tr 0).map (·.1) else some d1
   | none => none
 
 def expectCall (s : HSt) (i : Nat) : Nat :=
@@ -205,7 +206,7 @@ def doInstall (s : HSt) (hdr obs : List String) : HSt := Id.run do
     if kind != "b" then
       if followImpl tgt.addr slot ojit tr != some a then s := s.fail "c01.follow"
     else
-      if (X86.follow tgt.addr slot 0).map (·.1) != some ojit then s := s.fail "c01.follow"
+      if (followWide tgt.addr slot 0).map (·.1) != some ojit then s := s.fail "c01.follow"
     -- C17: both written ranges flushed with their final content
     if !flushCovers evs ojit (tr.take (if kind = "b" then 8 else (if tr.take 1 == [0xE9] then 5 else 12))) then s := s.fail "c17.tramp-flush"
     if !flushCovers evs tgt.addr (slot.take oplen) then s := s.fail "c17.entry-flush"
